@@ -81,6 +81,10 @@ BATTERY = [
              "properties": {"a": {"id": "http://ida.test/a/b/", "$id": "http://idb.test/a/b/",
                                   "$ref": "../root.json#/definitions/s"}},
              "definitions": {"s": {"type": "string"}}}, [{"a": 1}, {"a": "x"}], None),
+    # booleans where a schema is expected (every draft's classes evaluate them the same way, derived or not)
+    ("b24", {"properties": {"a": False, "b": True}, "anyOf": [False, {"maxProperties": 1}], "not": False,
+             "dependencies": {"b": True}},
+     [{"a": 1}, {"b": 1}, {"b": 1, "c": 2}], None),
 ]
 OVERRIDABLE = ["minimum", "maxLength", "enum", "x-marker", "x-also", "required", "items",
                "maximum", "minLength", "pattern", "minItems", "maxItems", "uniqueItems", "properties",
